@@ -201,6 +201,7 @@ type StaticCfg struct {
 	BlankAgencyID                                                                                            bool // single agency + routes without agency_id
 	IDStyle                                                                                                  int  // 0 prefixed (s0, r1), 1 numeric (101, 102), 2 dictionary words incl. pairs that collide under common 32-bit hashes
 	AgencyIDCellBlank                                                                                        bool // with BlankAgencyID: the single agency's own agency_id cell is empty
+	DistinctText                                                                                             bool // free-text cells that usually repeat (stop_headsign) are all different
 }
 
 func DrawStaticCfg(t *sim.T, big bool) StaticCfg {
@@ -564,7 +565,11 @@ func GenStatic(t *sim.T, c StaticCfg) *StaticModel {
 			base := 20000 + i*300
 			for k := 0; k < n; k++ {
 				a := base + k*180 + t.Choose(60)
-				rows = append(rows, []string{trip, gtfsTime(a), gtfsTime(a + 30), m.StopIDs[t.Choose(len(m.StopIDs))], fmt.Sprint((k + 1) * 5), "hs", fmt.Sprint(t.Choose(4)), fmt.Sprint(t.Choose(4)), fmt.Sprint(t.Choose(4)), fmt.Sprint(t.Choose(4)), fmt.Sprintf("%.1f", float64(k)*1.25), fmt.Sprint(t.Choose(2))})
+				hs := "hs"
+				if c.DistinctText {
+					hs = fmt.Sprintf("hs %d/%d", i, k)
+				}
+				rows = append(rows, []string{trip, gtfsTime(a), gtfsTime(a + 30), m.StopIDs[t.Choose(len(m.StopIDs))], fmt.Sprint((k + 1) * 5), hs, fmt.Sprint(t.Choose(4)), fmt.Sprint(t.Choose(4)), fmt.Sprint(t.Choose(4)), fmt.Sprint(t.Choose(4)), fmt.Sprintf("%.1f", float64(k)*1.25), fmt.Sprint(t.Choose(2))})
 			}
 		}
 		if c.Interleave {
@@ -632,5 +637,20 @@ func GiantStaticCfg(t *sim.T) StaticCfg {
 	c.Shapes = 9000 + t.Choose(4000)
 	c.ShapePts = 16 // about 8.5 per shape -> 75-110 thousand rows
 	c.Quoting = false
+	return c
+}
+
+// GiantDistinctCfg is a feed with more than 2^16 different free-text values (one head sign per trip and per
+// stop time): capacity thresholds of process-wide tables (interning, memoisation) that no ordinary feed and
+// no ordinary worker lifetime reaches. Thorough tier only.
+func GiantDistinctCfg(t *sim.T) StaticCfg {
+	c := DrawStaticCfg(t, false)
+	c.Stops = 200 + t.Choose(200)
+	c.Trips = 9000 + t.Choose(2000)
+	c.StopTimesPerTrip = 16 // about 8 per trip on average -> 70-90 thousand rows
+	c.HasShapes = false
+	c.Quoting = false
+	c.OptionalCols = 4
+	c.DistinctText = true
 	return c
 }
